@@ -6,7 +6,8 @@
 (* property formulas of UserTracking.                                       *)
 (*                                                                          *)
 (* Records (JSON; every record has t = virtual time in ms):                 *)
-(*   call   : u, op ("add" = track_user | "rem" = untrack_user), f          *)
+(*   call   : u, op ("add" = track_user | "rem" = untrack_user), f = list   *)
+(*            of the reasons in the flag argument (one or several)           *)
 (*   frame  : u, k ("add" = AddUser | "rem" = RemoveUser) written to the     *)
 (*            server connection                                             *)
 (*   reply  : u, exists          the scripted server answers the AddUser     *)
@@ -68,9 +69,10 @@ Hidden == UNCHANGED <<U, ready, ncalls, nfaults, ncloses>>
 Busy == settled' = FALSE /\ UNCHANGED <<obsFlags, obsState, alive>>
 
 TCall ==
-  /\ IsEv("call") /\ Rec.u \in Users /\ Rec.f \in Flags /\ Rec.op \in {"add", "rem"}
+  /\ IsEv("call") /\ Rec.u \in Users /\ Rec.op \in {"add", "rem"}
+  /\ ToSet(Rec.f) \subseteq Flags /\ Rec.f # <<>>
   /\ ~closing
-  /\ ref' = RefCall(ref, Rec.u, Rec.op, Rec.f)
+  /\ ref' = RefCall(ref, Rec.u, Rec.op, ToSet(Rec.f))
   /\ UNCHANGED <<serverLog, failT, closing, lastRetry, dueBy>>
   /\ Busy /\ Hidden /\ Consume
 
